@@ -203,8 +203,9 @@ class Harness(object):
             elif rr is not None and rr.aggregated: ctx.count('agree_aggregated.' + name)
             else: ctx.count('agree_empty_or_full.' + name)
         elif out == 'finding':
-            ctx.count('finding.' + extra['finding'])
-            ctx.finding(extra['finding'], self.witness(name, program, v, r, detail, extra))
+            for fid in extra['findings']:
+                ctx.count('finding.' + fid)
+                ctx.finding(fid, self.witness(name, program, v, r, detail, dict(extra, finding=fid)))
         elif out == 'disagree':
             w = self.witness(name, program, v, r, detail, extra)
             if shrink and ctx.counters.get('violations_seen', 0) < 4:       # shrinking reloads data: first few only
@@ -256,19 +257,22 @@ class Harness(object):
         # accepted when the switched model reproduces the reference, or exactly the rows of the SQLite dialect
         fid, variant = self.deviation_pass(name, program, r, lambda r2: qdiff.compare(r2, rr)[0] in ('agree', 'lenient_agree')
                                            or (sq is not None and sq.kind == r2.kind and self.same_bag(sq, r2)))
-        if fid: return 'finding', fid, {'finding': fid, 'variant': variant, 'detail': detail}
+        if fid: return 'finding', '+'.join(fid), {'findings': fid, 'variant': variant, 'detail': detail}
         return 'disagree', detail, {}
 
     def deviation_pass(self, name, program, r, accepts):
-        """Re-run the program with ONE function model of the dialect switched to the SQLite/Python reading; the finding is
-        identified only if the statements use that function and the switched run is accepted by `accepts`."""
+        """Re-run the program with function models of the dialect switched to the SQLite/Python reading -- each applicable
+        one alone, then all applicable ones together (two mechanisms can meet in one statement); a finding is identified
+        only if the statements use that function and the switched run is accepted by `accepts`.  -> (finding ids, variant)"""
         sql = '\n'.join(e['sql'] for e in getattr(r, 'statements', [])).lower()
-        for dname, variant, markers, fid in DEVIATIONS:
-            if dname != name or not any(m in sql for m in markers): continue
+        cands = [(variant, fid) for dname, variant, markers, fid in DEVIATIONS if dname == name and any(m in sql for m in markers)]
+        combos = [[c] for c in cands] + ([cands] if len(cands) > 1 else [])
+        for combo in combos:
+            variant = '+'.join(v for v, _ in combo)
             self.xd.set_variant(name, variant)
             try: r2 = self.run_dialect(name, program)
             finally: self.xd.set_variant(name, None)
-            if r2.kind != 'raised' and accepts(r2): return fid, variant
+            if r2.kind != 'raised' and accepts(r2): return [fid for _, fid in combo], variant
         return None, None
 
     def same_bag(self, a, b):
@@ -347,7 +351,7 @@ class Harness(object):
                 if same: out, detail, extra = 'agree', None, {}
                 else:
                     fid, variant = self.deviation_pass(name, program, r, lambda r2: r2.kind == sq.kind and r2.summary() == sq.summary())
-                    if fid: out, detail, extra = 'finding', fid, {'finding': fid, 'variant': variant}
+                    if fid: out, detail, extra = 'finding', '+'.join(fid), {'findings': fid, 'variant': variant}
                     else: out, detail, extra = 'disagree', 'limited/ordered result differs from the SQLite-dialect result', \
                         {'mechanism': 'limit-offset-disagreement:' + LABEL[name]}
             nonempty = r.kind == 'rows' and len(r.rows) > 0 or r.kind == 'scalar' and r.value is not None
@@ -355,8 +359,9 @@ class Harness(object):
             self.note(name, 'limit.' + out, detail)
             if out == 'agree' and nonempty: ctx.count('limit_agree_nonempty.' + name)
             if out == 'finding':
-                ctx.count('finding.' + extra['finding'])
-                ctx.finding(extra['finding'], self.witness(name, program, v, r, detail, extra))
+                for fid in extra['findings']:
+                    ctx.count('finding.' + fid)
+                    ctx.finding(fid, self.witness(name, program, v, r, detail, dict(extra, finding=fid)))
             if out == 'disagree':
                 ctx.violation(self.witness(name, program, v, r, detail, extra),
                               mechanism=extra.get('mechanism', 'limit-offset-disagreement:' + LABEL[name]))
